@@ -1334,22 +1334,183 @@ impl<'a> Gen<'a> {
     }
 }
 
+/// one op line of the update stream
+pub enum UpdOp {
+    /// a statement in its own transaction; `write_path` = through execute_write instead of execute_mixed
+    One { write_path: bool, reads: Vec<Clause>, ups: Vec<UClause> },
+    /// several statements in one write transaction against one snapshot; one path letter per statement
+    Txn { paths: String, stmts: Vec<(Vec<Clause>, Vec<UClause>)> },
+}
+
+impl<'a> Gen<'a> {
+    /// "the last assignment wins": groups of statements that assign one (entity, key) several times inside one
+    /// statement or one transaction — UNWIND-driven rows, several SET items on one key, SET next to `+=` / `=` maps
+    /// on the same key, SET followed by another SET / by MERGE … ON MATCH SET, several statements in one
+    /// transaction — with value sequences that come back to an earlier value (a, b, a); by default the group starts
+    /// with a priming statement that stores `a`, so that the last assigned value equals the stored one.  Node
+    /// (`k`, `j`) and relationship (`w`) properties, both execute paths.
+    pub fn reassign_group(&mut self) -> (&'static str, Vec<UpdOp>) {
+        let on_rel = self.rng.chance(1, 3);
+        let key: &str = if on_rel { "w" } else { *self.rng.pick(&["k", "k", "j"]) };
+        let a = *self.rng.pick(&[0i64, 1, 2, 5]);
+        let mut b = *self.rng.pick(&[3i64, 4, 7, 1]);
+        if b == a {
+            b = 9;
+        }
+        let label: Option<String> = if self.rng.chance(2, 3) { Some(self.rng.pick(&["A", "B"]).to_string()) } else { None };
+        let ty: Vec<String> = if self.rng.chance(1, 2) { vec![self.rng.pick(TYPES).to_string()] } else { vec![] };
+        let var = if on_rel { "r1".to_string() } else { "n1".to_string() };
+        let reads = |extra_unwind: Option<Vec<i64>>| -> Vec<Clause> {
+            let mut q = vec![];
+            if let Some(xs) = extra_unwind {
+                q.push(Clause::Unwind(Expr::List(xs.into_iter().map(Lit::Int).collect()), "x0".into()));
+            }
+            if on_rel {
+                q.push(Clause::Match(
+                    false,
+                    vec![PathPat {
+                        start: NodePat { var: Some("n0".into()), ..Default::default() },
+                        steps: vec![(
+                            RelPat { var: Some("r1".into()), types: ty.clone(), dir: "out", props: vec![] },
+                            NodePat { var: Some("n2".into()), ..Default::default() },
+                        )],
+                    }],
+                ));
+            } else {
+                let mut np = NodePat { var: Some("n1".into()), ..Default::default() };
+                if let Some(l) = &label {
+                    np.labels.push(l.clone());
+                }
+                q.push(Clause::Match(false, vec![PathPat { start: np, steps: vec![] }]));
+            }
+            q
+        };
+        let int = |v: i64| Expr::Lit(Lit::Int(v));
+        let set1 = |v: Expr| UClause::Set(vec![SetItem::Prop(var.clone(), key.to_string(), v)]);
+        let mut ops: Vec<UpdOp> = vec![];
+        if self.rng.chance(4, 5) {
+            // priming: store `a` everywhere the group writes
+            ops.push(UpdOp::One { write_path: self.rng.chance(1, 2), reads: reads(None), ups: vec![set1(int(a))] });
+        }
+        let variant = self.rng.below(if on_rel { 5 } else { 7 });
+        let tag: &'static str = match variant {
+            0 | 1 => {
+                // UNWIND-driven rows
+                let xs = if self.rng.chance(1, 2) { vec![b, a] } else { vec![a, b, a] };
+                ops.push(UpdOp::One {
+                    write_path: self.rng.chance(1, 2),
+                    reads: reads(Some(xs)),
+                    ups: vec![set1(Expr::Var("x0".into()))],
+                });
+                "unwind-rows"
+            }
+            2 => {
+                // several items on one key in one SET clause; the last one may read the property itself
+                let last = if self.rng.chance(1, 3) { Expr::Prop(var.clone(), key.to_string()) } else { int(a) };
+                let mut items = vec![SetItem::Prop(var.clone(), key.to_string(), int(b))];
+                if self.rng.chance(1, 3) {
+                    items.push(SetItem::Prop(var.clone(), key.to_string(), int(b + 1)));
+                }
+                items.push(SetItem::Prop(var.clone(), key.to_string(), last));
+                ops.push(UpdOp::One { write_path: self.rng.chance(1, 2), reads: reads(None), ups: vec![UClause::Set(items)] });
+                "set-items"
+            }
+            3 => {
+                // several statements in one write transaction, one snapshot
+                let mut stmts = vec![(reads(None), vec![set1(int(b))])];
+                if self.rng.chance(1, 3) {
+                    stmts.push((reads(None), vec![set1(int(b + 1))]));
+                }
+                stmts.push((reads(None), vec![set1(int(a))]));
+                let paths: String = stmts.iter().map(|_| if self.rng.chance(1, 2) { 'w' } else { 'm' }).collect();
+                ops.push(UpdOp::Txn { paths, stmts });
+                "txn"
+            }
+            4 => {
+                // two SET clauses in one statement
+                ops.push(UpdOp::One { write_path: false, reads: reads(None), ups: vec![set1(int(b)), set1(int(a))] });
+                "set-set"
+            }
+            5 => {
+                // plain assignment next to a map on the same key (either order, `+=` or `=`)
+                let m = vec![(key.to_string(), int(a))];
+                let map_item = if self.rng.chance(2, 3) { SetItem::MapMerge(var.clone(), m) } else { SetItem::MapReplace(var.clone(), m) };
+                let items = if self.rng.chance(1, 2) {
+                    vec![SetItem::Prop(var.clone(), key.to_string(), int(b)), map_item]
+                } else {
+                    let m2 = vec![(key.to_string(), int(b))];
+                    vec![SetItem::MapMerge(var.clone(), m2), SetItem::Prop(var.clone(), key.to_string(), int(a))]
+                };
+                ops.push(UpdOp::One { write_path: false, reads: reads(None), ups: vec![UClause::Set(items)] });
+                "set-map"
+            }
+            _ => {
+                // SET, then MERGE … ON MATCH SET on the same nodes
+                let mut np = NodePat { var: Some("m9".into()), ..Default::default() };
+                if let Some(l) = &label {
+                    np.labels.push(l.clone());
+                }
+                let merge = UClause::Merge(
+                    PathPat { start: np, steps: vec![] },
+                    vec![],
+                    vec![SetItem::Prop("m9".into(), key.to_string(), int(a))],
+                );
+                ops.push(UpdOp::One { write_path: false, reads: reads(None), ups: vec![set1(int(b)), merge] });
+                "set-merge"
+            }
+        };
+        (tag, ops)
+    }
+}
+
+pub fn write_upd_op(out: &mut dyn Write, op: &UpdOp) {
+    match op {
+        UpdOp::One { write_path, reads, ups } => {
+            let text = esc(&stmt_text(reads, ups));
+            let sx = stmt_sx(reads, ups);
+            writeln!(out, "{} {} {} {}", if *write_path { "updatew" } else { "update" }, PARAMS, text, sx).unwrap();
+        }
+        UpdOp::Txn { paths, stmts } => {
+            let texts: Vec<String> = stmts.iter().map(|(r, u)| esc(&stmt_text(r, u))).collect();
+            let sxs: Vec<String> = stmts.iter().map(|(r, u)| stmt_sx(r, u)).collect();
+            writeln!(out, "updatet {} {} {} (stmts {})", PARAMS, paths, texts.join("|;|"), sxs.join(" ")).unwrap();
+        }
+    }
+    writeln!(out, "dump").unwrap();
+}
+
 pub fn generate_update_stream(rng: &mut Rng, n: usize, _tier: &str, out: &mut dyn Write) {
     let mut case = 0;
     let mut emitted = 0;
+    let mut reassign = 0;
+    let mut by_tag: std::collections::BTreeMap<&'static str, usize> = Default::default();
     while emitted < n {
         case += 1;
         writeln!(out, "#case u{}", case).unwrap();
         gen_graph(rng, out);
         writeln!(out, "dump").unwrap();
         let k = 6;
-        for _ in 0..k {
-            let (reads, ups) = Gen { rng, params: true }.update_stmt();
-            let text = esc(&stmt_text(&reads, &ups));
-            let sx = stmt_sx(&reads, &ups);
-            writeln!(out, "update {} {} {}", PARAMS, text, sx).unwrap();
-            writeln!(out, "dump").unwrap();
-            emitted += 1;
+        let mut in_case = 0;
+        while in_case < k {
+            if rng.chance(1, 6) {
+                let (tag, ops) = Gen { rng, params: true }.reassign_group();
+                for op in &ops {
+                    write_upd_op(out, op);
+                    in_case += 1;
+                    emitted += 1;
+                    reassign += 1;
+                }
+                *by_tag.entry(tag).or_default() += 1;
+            } else {
+                let (reads, ups) = Gen { rng, params: true }.update_stmt();
+                write_upd_op(out, &UpdOp::One { write_path: false, reads, ups });
+                in_case += 1;
+                emitted += 1;
+            }
         }
+    }
+    if std::env::var("NVH_GEN_STATS").is_ok() {
+        eprintln!("update stream: {} statements, {} ({:.1}%) in last-assignment-wins groups {:?}", emitted, reassign,
+            100.0 * reassign as f64 / emitted.max(1) as f64, by_tag);
     }
 }
